@@ -9,6 +9,7 @@ pub mod c12;
 pub mod c13;
 pub mod c14;
 pub mod c15;
+pub mod c16;
 pub mod c17;
 pub mod c18;
 pub mod c19;
@@ -32,6 +33,7 @@ pub fn dispatch_run(id: &str, run: &mut Run) -> bool {
         "C19" => c19::run(run),
         "C14" => c14::run(run),
         "C15" => c15::run(run),
+        "C16" => c16::run(run),
         "C17" => c17::run(run),
         _ => return false,
     }
@@ -52,6 +54,7 @@ pub fn dispatch_replay(id: &str, check: &str, case: Value, run: &mut Run) -> Res
         "C19" => c19::replay(check, case, run),
         "C14" => c14::replay(check, case, run),
         "C15" => c15::replay(check, case, run),
+        "C16" => c16::replay(check, case, run),
         "C17" => c17::replay(check, case, run),
         _ => Err(format!("unknown property {id}")),
     }
